@@ -178,3 +178,7 @@ for _ty, _st, _ls in (("SUPERSCRIPT", 0, (1, 1, 2)), ("SUPERSCRIPT", 0, (1, 1, 3
       cbmc_flags=["--unwind", str(_n + 3), "--unwindset", "mmd_assign_ambidextrous_tokens_in_block.14:6", "--unwinding-assertions"], timeout=600, cost=10,   # .14 = the outer while (t != NULL) over the chain (<= 4 tokens)
       functions=["mmd_assign_ambidextrous_tokens_in_block (SUPERSCRIPT/SUBSCRIPT arm)"], callees={"char_is_*": "body (real table)", "tokens_prune, token_new": "contract stubs (the range leaves the chain; a fresh token with the given span)"},
       native=None, min_obligations=20, assumptions=[NOFAIL, "the chain is contiguous, non-empty tokens inside the NUL-terminated source (lexer contract, assumed)"])
+
+# ---- token_chain_accept: the cursor primitive (loop-free, every input) ---------------------------------------
+U("chain_accept", ["C15", "C01"], "h_chain_accept", ["C15/chain_accept.c"], ["token.c", "char.c"], enforce="token_chain_accept", lib=(),
+  callees={}, native={"repo": ["token.c", "char.c", "object_pool.c", "stack.c"]}, min_obligations=5)
